@@ -21,6 +21,6 @@ Definition set_iteration_sites : list (string * string * nat * string * iter_kin
    ("sidemantic/sql/generator.py", "_build_model_cte", 1194, "all_metric_columns", Irrelevant);
    ("sidemantic/sql/generator.py", "_build_model_cte", 1200, "measures_needed", Sorted);
    ("sidemantic/sql/generator.py", "_needs_preaggregation_for_fanout", 1363, "enumerate(metric_model_list)", Irrelevant);
-   ("sidemantic/sql/generator.py", "_build_metric_sql", 2209, "dependencies", Sorted);
-   ("sidemantic/sql/generator.py", "collect_leaf_base_metrics", 2578, "dependencies", Sorted);
-   ("sidemantic/sql/generator.py", "build_time_comparison_base_expression", 2722, "metric_obj.get_dependencies(self.graph, resolved_context)", Sorted)].
+   ("sidemantic/sql/generator.py", "_build_metric_sql", 2210, "dependencies", Sorted);
+   ("sidemantic/sql/generator.py", "collect_leaf_base_metrics", 2579, "dependencies", Sorted);
+   ("sidemantic/sql/generator.py", "build_time_comparison_base_expression", 2723, "metric_obj.get_dependencies(self.graph, resolved_context)", Sorted)].
